@@ -431,6 +431,9 @@ def call(objs, st, tmp):
         if a['usedims']['h']:
             kw['dims'] = tuple(a['usedims']['v'])
         kw['coords'] = a['coords']
+        if 'fill' in a:     # the fill value held under the new mask
+            kw['fill_value'] = float('nan') if a['fill'] == 'nan' \
+                else a['fill']
         return f.mask(**kw)
     if act == 'arith':
         return getattr(f, PYOP[a['op']])(others[0])
